@@ -17,10 +17,13 @@
                already registered by somebody); delete removes entries of the named topic /
                channel only and never adds or alters one; tombstone turns flags on, only for
                the named topic, only for connections whose broadcast_address:http_port is the
-               named node, and removes nothing
+               named node, and removes nothing; invalid names are refused: whatever was sent,
+               every name the views list (/topics, /channels, the channels of /lookup, the
+               keys of /debug) passes the name rule (1..64 bytes in total, suffix included),
+               and an admin request answered 200 named a valid topic (and channel)
    No proofs here. *)
 From Coq Require Import List NArith ZArith Bool String.
-From NSQV Require Import model.Judge model.Names model.Lookupd model.LookupProto judge.J14.
+From NSQV Require Import model.Judge model.Names model.Lookupd model.LookupProto model.LookupNames judge.J14.
 Import ListNotations.
 Open Scope bool_scope.
 
@@ -239,8 +242,23 @@ Definition mon_admin (watched : name) (a : admin) (q : query) (v prev : view) : 
   | _, _ => view_same v prev         (* an argument the handler needs is missing or the query does not parse *)
   end.
 
+(* invalid names are refused: the registry as the daemon itself shows it holds valid names only *)
+Definition view_names_ok (v : view) : bool :=
+  forallb is_valid_name (v_topics v) && forallb is_valid_name (v_chans v)
+  && forallb is_valid_name (lookup_chans v)
+  && forallb (fun e => key_ok (fst (fst e))) (v_debug v).
+
+(* ... and an admin request that was answered 200 named a valid topic (and channel) *)
+Definition admin_args_valid (a : admin) (q : query) : bool :=
+  match a, q with
+  | (KCreateT | KDeleteT | KTomb), QArgs (Some t) _ _ => is_valid_name t
+  | (KCreateC | KDeleteC), QArgs (Some t) (Some c) _ => is_valid_name t && is_valid_name c
+  | _, _ => false
+  end.
+
 Definition mon_http (watched : name) (m path : string) (q : query) (n : N) (v prev : view) : bool :=
   (N.eqb n 200 || view_same v prev)
+  && (negb (N.eqb n 200) || match admin_of m path with Some a => admin_args_valid a q | None => true end)
   && match admin_of m path with
      | None => view_same v prev
      | Some a => mon_admin watched a q v prev
@@ -251,7 +269,7 @@ Fixpoint mon_acts (watched : name) (by_ : peer) (prev : view) (l : list act) : b
   | [] => true
   | a :: r =>
       let v := a_view a in
-      a_alive a &&
+      a_alive a && view_names_ok v &&
       (match a_action a, a_result a with
        | AConn p _ _, RConn frames =>
            frames_ok frames && last_is (a_expect a) frames
